@@ -111,6 +111,23 @@ def _format_value(v):
     return "{}".format(v)
 
 
+def _format_symbolic(expr):
+    """Formats a SymPy expression of free parameters as a Blackbird expression,
+    with every free parameter ``p`` written as ``{p}``.
+
+    The parameters are renamed as symbols rather than replaced in the printed text,
+    since a parameter name may be contained in another name or in a number.
+
+    Args:
+        expr (sympy.Expr): expression containing free parameters
+
+    Returns:
+        str: the Blackbird representation of the expression
+    """
+    braced = {p: sym.Symbol("{" + str(p) + "}") for p in expr.free_symbols}
+    return str(expr.xreplace(braced))
+
+
 class BlackbirdProgram:
     """Python representation of a Blackbird program."""
 
@@ -429,11 +446,7 @@ class BlackbirdProgram:
 
                     elif isinstance(v, sym.Expr):
                         # argument contains free parameters
-                        res = str(v)
-                        for p in v.free_symbols:
-                            res = res.replace(str(p), "{"+str(p)+"}")
-
-                        args.append(res)
+                        args.append(_format_symbolic(v))
 
                     else:
                         # anything that doesn't need to be dealt with as a special case,
